@@ -6,13 +6,18 @@
 // fs that counts mutating calls and injects a crash (or a torn write, or an I/O error) at the k-th one.
 //
 // State      = (sign-state file content [+ leftover temp files], in-memory FileState, history of released
-//              signatures per (height, round, step)).
+//
+//	signatures per (height, round, step)).
+//
 // Transition = one sign request out of the full alphabet, executed on the real code either normally or with
-//              EVERY crash point inside it (before each mutating fs call, torn write, after completion but before
-//              the caller gets the result) followed by a reload; plus a clean restart after every state.
+//
+//	EVERY crash point inside it (before each mutating fs call, torn write, after completion but before
+//	the caller gets the result) followed by a reload; plus a clean restart after every state.
+//
 // Search     = breadth first, level = number of requests, duplicate states merged, bounded depth.
 // Oracle     = invariant over the whole history of released signatures (see checkRelease) + "a crash never leaves
-//              a sign-state file that cannot be loaded".
+//
+//	a sign-state file that cannot be loaded".
 package main
 
 import (
@@ -103,7 +108,7 @@ type req struct {
 }
 
 var (
-	nH, nR = 2, 2
+	nH, nR  = 2, 2
 	blkName = []string{"A", "B", "nil"}
 )
 
@@ -355,8 +360,8 @@ type config struct {
 	name     string
 	depth    int
 	alphabet []req
-	keepLeft bool // keep leftover temp files in the state (full fidelity) instead of pruning them after the reload
-	ioErr    bool // additionally inject I/O errors (EIO, process lives on) at every mutating call
+	keepLeft bool    // keep leftover temp files in the state (full fidelity) instead of pruning them after the reload
+	ioErr    bool    // additionally inject I/O errors (EIO, process lives on) at every mutating call
 	share    float64 // cumulative share of the run budget after which this configuration stops (capped)
 }
 
@@ -926,9 +931,9 @@ func main() {
 		}
 	} else {
 		cfgs = []config{
-			{name: "crash-points", depth: 5, alphabet: alphabet(2, 2, v3), share: 0.55},
-			{name: "crash-points-with-nil-block", depth: 4, alphabet: alphabet(2, 2, v4), share: 0.72},
-			{name: "crash-points+io-errors", depth: 4, alphabet: alphabet(2, 2, v3), ioErr: true, share: 0.86},
+			{name: "crash-points", depth: 6, alphabet: alphabet(2, 2, v3), share: 0.60},
+			{name: "crash-points-with-nil-block", depth: 4, alphabet: alphabet(2, 2, v4), share: 0.75},
+			{name: "crash-points+io-errors", depth: 4, alphabet: alphabet(2, 2, v3), ioErr: true, share: 0.88},
 			{name: "crash-points+leftover-temp-files", depth: 3, alphabet: alphabet(1, 2, v3), keepLeft: true, share: 1.0},
 		}
 	}
@@ -942,6 +947,9 @@ func main() {
 			}
 		}
 		cfgs = keep
+	}
+	if d := os.Getenv("C34_DEPTH"); d != "" { // experiments only
+		fmt.Sscanf(d, "%d", &cfgs[0].depth)
 	}
 	var totalStates, totalTrans, crashRuns, released int64
 	exhaustive := true
